@@ -10,6 +10,7 @@ so changing a constant (e.g. month = 30) re-instantiates them rather than breaki
 -/
 import StarsimModel.Lemmas.TimePar
 import StarsimModel.Lemmas.TimeParReal
+import Mathlib.Data.Rat.Floor
 
 namespace StarsimModel.C06
 open StarsimModel.TimePar
@@ -378,7 +379,7 @@ theorem C06_array_eq_scalar {α : Type} {o : NumOps α} (law : LawfulOrd o) (k :
       | true => exact absurd h ((law.le_iff_not_lt _ _).mp h01.1)
     have tp_case : (o.lt x o.zero || o.lt o.one x) = false →
         (if o.beq x o.zero then Except.ok o.zero else if o.beq x o.one then .ok o.one
-          else if (o.le o.zero x && o.le x o.one) then (if o.beq f o.zero then .error Err.zeroDiv else .ok (o.tpFormula x f)) else .error Err.value)
+          else if (o.le o.zero x && o.le x o.one) then (if o.beq f o.zero then .ok o.one else .ok (o.tpFormula x f)) else .error Err.value)
         = .ok (if (o.lt o.zero x && o.lt x o.one) then o.tpFormula x f else x) := by
       intro hinv
       simp only [Bool.or_eq_false_iff] at hinv
@@ -553,6 +554,107 @@ theorem C06_to_roundtrip_counterexample (v f : ℝ) (hv : 1 ≤ v) (hf : 0 < f) 
   refine ⟨_, _, convScalar_rp_real hv0 hf0, convScalar_rp_real hx (by positivity), ?_⟩
   have := rp_lt_one (realOps.rpFormula v f) (1 / f)
   intro h; linarith
+
+/-! ### `as_int`, purity, degenerate dt -/
+
+theorem roundHalfEven_spec (q : Rat) : |((roundHalfEven q : Int) : Rat) - q| ≤ 1 / 2 := by
+  have h1 : ((q.floor : Int) : Rat) ≤ q := Int.floor_le q
+  have h2 : q < ((q.floor : Int) : Rat) + 1 := Int.lt_floor_add_one q
+  unfold roundHalfEven
+  simp only
+  by_cases ha : q - (q.floor : Rat) < 1 / 2
+  · simp only [ha, if_true]; rw [abs_le]; constructor <;> linarith
+  · simp only [ha, if_false]
+    by_cases hb : 1 / 2 < q - (q.floor : Rat)
+    · simp only [hb, if_true]; push_cast; rw [abs_le]; constructor <;> linarith
+    · simp only [hb, if_false]
+      have he : q - (q.floor : Rat) = 1 / 2 := le_antisymm (not_lt.mp hb) (not_lt.mp ha)
+      by_cases hm : q.floor % 2 = 0
+      · simp only [hm, if_true]; rw [abs_le]; constructor <;> linarith
+      · simp only [hm, if_false]; push_cast; rw [abs_le]; constructor <;> linarith
+
+/-- **`as_int`**: the rounded factor (Python's round-half-even of the exact factor), within 1/2 of it; errors are the same -/
+theorem C06_ratio_as_int (u1 u2 : UnitT) (d1 d2 : Option Rat) :
+    (∀ f, timeRatio u1 d1 u2 d2 = .ok f → timeRatioInt u1 d1 u2 d2 = .ok (roundHalfEven f) ∧ |((roundHalfEven f : Int) : Rat) - f| ≤ 1 / 2) ∧
+    (∀ e, timeRatio u1 d1 u2 d2 = .error e → timeRatioInt u1 d1 u2 d2 = .error e) := by
+  constructor
+  · intro f h; exact ⟨by simp [timeRatioInt, h], roundHalfEven_spec f⟩
+  · intro e h; simp [timeRatioInt, h]
+
+/-- **Purity**: `time_ratio` is a function of its arguments — in any sequence of requests (with or without `as_int`) the
+    k-th answer is the answer to the k-th request alone.  (The code is tied to this by the interleaved oracle/correspondence.) -/
+theorem C06_ratio_requests_independent (reqs : List RatioReq) (k : Nat) :
+    (reqs.map answerRatio)[k]? = (reqs[k]?).map answerRatio := by simp
+
+/-- **dt = 0**: a zero denominator dt is a ZeroDivisionError unless both dt are equal (short-cut 1); a zero numerator dt gives factor 0 -/
+theorem C06_ratio_zero_dt {a b : String} {x y : Rat} (ha : unitLen a = some x) (hb : unitLen b = some y) (d : Rat) (hd : d ≠ 0) :
+    timeRatio (some a) (some d) (some b) (some 0) = .error .zeroDiv ∧
+    timeRatio (some a) (some 0) (some b) (some 0) = .ok (x / y) ∧
+    timeRatio (some a) (some 0) (some b) (some d) = .ok 0 := by
+  refine ⟨?_, ?_, ?_⟩
+  · simp [timeRatio, dtRatio, hd]
+  · simp [timeRatio, dtRatio, unitRatio_known ha hb]
+  · rw [timeRatio_known ha hb hd]; simp
+
+/-- **factor = 0** (`self_dt = 0`), scalar branch: a duration becomes 0 steps, a rate is a ZeroDivisionError,
+    a probability strictly inside (0,1) becomes 1 (NumPy: `exp(-inf) = 0`), a positive `rate_prob` is a ZeroDivisionError -/
+theorem C06_zero_factor_behaviour {α : Type} {o : NumOps α} (law : LawfulOrd o) (v : α) :
+    convScalar o .rate o.zero v = .error .zeroDiv ∧
+    (o.lt o.zero v = true → o.lt v o.one = true → convScalar o .timeProb o.zero v = .ok o.one) ∧
+    (o.lt o.zero v = true → convScalar o .rateProb o.zero v = .error .zeroDiv) ∧
+    convScalar ratOps .dur 0 (0 : Rat) = .ok 0 ∧ ∀ r : Rat, convScalar ratOps .dur 0 r = .ok 0 := by
+  have hz : o.beq o.zero o.zero = true := (law.beq_iff _ _).mpr rfl
+  refine ⟨by simp [convScalar, hz], ?_, ?_, by simp [convScalar_dur], fun r => by simp [convScalar_dur]⟩
+  · intro h0 h1
+    have n0 : o.beq v o.zero = false := by
+      cases hb : o.beq v o.zero with
+      | false => rfl
+      | true => exact absurd ((law.beq_iff _ _).mp hb).symm ((law.lt_iff _ _).mp h0).2
+    have n1 : o.beq v o.one = false := by
+      cases hb : o.beq v o.one with
+      | false => rfl
+      | true => exact absurd ((law.beq_iff _ _).mp hb) ((law.lt_iff _ _).mp h1).2
+    simp [convScalar, n0, n1, ((law.lt_iff _ _).mp h0).1, ((law.lt_iff _ _).mp h1).1, hz]
+  · intro h0
+    have n0 : o.beq v o.zero = false := by
+      cases hb : o.beq v o.zero with
+      | false => rfl
+      | true => exact absurd ((law.beq_iff _ _).mp hb).symm ((law.lt_iff _ _).mp h0).2
+    simp [convScalar, n0, h0, hz]
+
+/-- **negative dt** is accepted by the code (the property quantifies over positive dt): the factor formula still holds
+    (`C06_ratio_formula` has no sign hypothesis), but a time probability then leaves [0,1] — the range theorem needs `0 < factor` -/
+theorem C06_negative_factor_out_of_range {v f : ℝ} (h0 : 0 < v) (h1 : v < 1) (hf : f < 0) : realOps.tpFormula v f < 0 := by
+  rw [tp_real]
+  have hL : Real.log (1 - v) < 0 := Real.log_neg (by linarith) (by linarith)
+  have : 0 < Real.log (1 - v) / f := div_pos_of_neg_of_neg hL hf
+  have := Real.exp_lt_exp.mpr this
+  rw [Real.exp_zero] at this
+  linarith
+
+/-! ### `pow` / `rpow`, distributions wrapped in a TimePar -/
+
+/-- `x ** c` and `c ** x` are plain numbers computed elementwise from `values`; without `values` a TypeError -/
+theorem C06_pow_on_values {α : Type} (o : NumOps α) (t : TP α) (c : α) :
+    (∀ vals, t.values = some vals → powC o t c = .ok (vals.map (fun x => o.powr x c)) ∧ rpowC o t c = .ok (vals.map (fun x => o.powr c x))) ∧
+    (t.values = none → powC o t c = .error .type ∧ rpowC o t c = .error .type) := by
+  constructor
+  · intro vals h; simp [powC, rpowC, onValues, h]
+  · intro h; simp [powC, rpowC, onValues, h]
+
+/-- over ℝ the power is the real power -/
+example (a b : ℝ) : realOps.powr a b = a ^ b := rfl
+
+/-- **Distribution wrapped in a duration** (`ss.dur(ss.normal(...))`, `ss.lognorm_ex(mean=ss.dur(6))`): every variate is
+    multiplied by the factor — a sampled duration in steps × step length = the sampled duration (with `C06_dur_steps`) -/
+theorem C06_dist_wrapping_scales (t : TP Rat) (hk : t.kind = .dur) {u pu : String} {lu lpu s p : Rat}
+    (hu : t.unit = some u) (hpu : t.parentUnit = some pu) (hs : t.selfDt = some s) (hp : t.parentDt = some p)
+    (hlu : unitLen u = some lu) (hlpu : unitLen pu = some lpu) (hp0 : p ≠ 0) (draws : List Rat) :
+    (scaleDraws ratOps t draws).2 = .ok () ∧
+    (scaleDraws ratOps t draws).1.values = some (.array (draws.map (· * ((s / p) * (lu / lpu))))) := by
+  unfold scaleDraws
+  rw [updateCached_dur (t := { t with v := .array draws }) hk hu hpu hs hp hlu hlpu hp0 true]
+  exact ⟨rfl, rfl⟩
 
 /-! ### Non-vacuity -/
 
